@@ -221,6 +221,7 @@ impl C18 {
             4 => Strategy::HighestId,
             _ => Strategy::Starve(rng.below(3) as u8),
         };
+        cfg.workers = *rng.pick(&[None, None, None, Some(1usize), Some(2)]);
         cfg.budget = 400 * (iterations as u64) * (seq.len() as u64 + 2) * 40 + 50_000;
         let via_entry = rng.below(6) == 0;
         Case { class, seq, iterations, repeated_text, front_end, faults, via_entry, cfg }
